@@ -2,12 +2,48 @@ package formula
 
 import (
 	"context"
+	"math/big"
 
 	"github.com/ericlagergren/decimal"
 )
 
 func init() {
 	vpHarnesses["VP_C12_literals"] = VP_C12_literals
+	vpHarnesses["VP_C12_long"] = VP_C12_long
+}
+
+// C12/long: "however many digits it has". CONCRETE POOL of long literals
+// (beyond 2^63, 2^64, 34 and 40 digits); the expected value is assembled with
+// math/big from the digit string, independently of the decimal parser.
+func VP_C12_long() {
+	pool := []struct {
+		text   string
+		digits string // all significant digits, separators removed
+		scale  int    // number of fraction digits minus exponent
+	}{
+		{"9223372036854775807", "9223372036854775807", 0}, {"9223372036854775808", "9223372036854775808", 0}, {"18446744073709551615", "18446744073709551615", 0},
+		{"18446744073709551616", "18446744073709551616", 0}, {"00018446744073709551615", "18446744073709551615", 0}, {"1_8446744073709551615", "18446744073709551615", 0},
+		{"1234567890123456789012345678901234", "1234567890123456789012345678901234", 0}, {"1234567890123456789012345678901234567890", "1234567890123456789012345678901234567890", 0},
+		{"0.0000000000000000000000000000000000000001", "1", 40}, {"12345678901234567890.12345678901234", "1234567890123456789012345678901234", 14},
+		{"9223372036854775808e2", "9223372036854775808", -2}, {"92233720368547758.08", "9223372036854775808", 2}, {"010", "10", 0}, {"0777", "777", 0},
+	}
+	p := pool[vpChoice("lit", len(pool))]
+	code, err := ParseSourceCode([]byte(p.text))
+	vpAssert("C12/long/accepted", err == nil)
+	if err != nil {
+		return
+	}
+	v, rerr := NewRunner().resolve(context.Background(), code.Expression)
+	got, ok := v.(*decimal.Big)
+	vpAssert("C12/long/is-number", rerr == nil && ok && got != nil)
+	if !ok || got == nil {
+		return
+	}
+	n, okBig := new(big.Int).SetString(p.digits, 10)
+	want := new(decimal.Big).SetBigMantScale(n, p.scale)
+	vpObserve("long", p.text, got.String())
+	vpAssert("C12/long/exact-value", okBig && got.IsFinite() && got.Cmp(want) == 0 && !got.Signbit())
+	vpReach("C12/long/done")
 }
 
 const (
